@@ -395,7 +395,7 @@ def c13_chains(tier, rnd, excs=("ZeroDivisionError",)):
 
 # ------------------------------------------------------------------ C12
 EXC12 = ["KeyError", "ValueError", "ZeroDivisionError", "Custom2", "CustomStr", "RecursionError",
-         "KeyboardInterrupt", "SystemExit"]
+         "KeyboardInterrupt", "SystemExit", "Exception"]
 
 
 def c12_raising(tier, rnd):
@@ -414,7 +414,23 @@ def c12_raising(tier, rnd):
             if "case" in sub:
                 items.append(Open(sw=al.call("switch"), name="section"))
                 items.append(Text("\n   "))
-            items.append(element(al, sub))
+            el = element(al, sub)
+            # every third program: the statement expressions contain characters that are written as entities
+            # in an attribute value (1 < 2, 1 & 3)
+            ent = (n % 3 == 2)
+            if ent:
+                w = "ltcond" if n % 2 else "ampand"
+                for d in el["def"]:
+                    d["e"] = wrap(w, d["e"])
+                for key in ("cond", "cs"):
+                    if el[key]["x"] != "none":
+                        el[key] = wrap(w, el[key])
+                for key in ("rep", "sub", "omit"):
+                    if el[key]["e"]["x"] != "none":
+                        el[key]["e"] = wrap(w, el[key]["e"])
+                for d in el["dattr"]:
+                    d["e"] = wrap(w, d["e"])
+            items.append(el)
             items.append(Text("t\n", al.call("content", [S("a")]), "é ", al.call("content", [S("a")])))
             items.append(CLOSE)
             if "case" in sub:
@@ -422,7 +438,7 @@ def c12_raising(tier, rnd):
             items.append(Text("post", al.call("content", [S("a")])))
             for k in al.dom:
                 al.dom[k] = al.dom[k] + [EXC(c)]
-            progs.append(program(items, al.dom, fam="C12:%s:%s" % (c, "+".join(sub))))
+            progs.append(program(items, al.dom, fam="C12:%s:%s%s" % (c, "+".join(sub), ":entities" if ent else "")))
     return progs
 
 
@@ -961,5 +977,29 @@ def c10_family(tier, rnd):
         lib = [Open(name="div", i18n=b or None, sattr=[]), Open(dm="m1", name="div", sattr=[]), Open(name="p", tr="", sattr=[]), Text("in macro"), CLOSE,
                Open(name="em", i18n={"d": "inner"}, sattr=[]), Open(ds="s", name="u", sattr=[]), Text("default"), CLOSE, CLOSE, CLOSE, CLOSE]
         add(main + lib, al, "T4m:%s/%s" % (sorted(a.items()), sorted(b.items())), "identity", main=len(main),
+            libs=[{"from": len(main) + 1, "to": len(main) + len(lib)}])
+    # T6: message objects inserted as content / replacement / attribute / interpolation are offered to the translation
+    # function with the settings of the place where the insertion is written -- also inside macro bodies and fillers
+    M = [OBJ("msg")]
+
+    def sites(al, n=4):
+        groups = [[Text("t", al.call("content", M), "u")],
+                  [Open(name="i", sub=("content", False, al.call("content", M)), sattr=[]), Text("old"), CLOSE],
+                  [Open(name="b", sub=("replace", False, al.call("replace", M)), sattr=[]), Text("old"), CLOSE],
+                  [Open(name="u", dattr=[("title", al.call("attrs", M))], sattr=["class"]), Text("k"), CLOSE]]
+        return sum(groups[:n], [])
+    for a, b in [({"d": "outer"}, {"d": "inner"}), ({"d": "outer", "c": "oc", "t": "fr"}, {"c": "ic"}), ({}, {"d": "inner", "t": "de"})]:
+        al = Alloc(tier)
+        items = [Open(name="div", i18n=a or None, sattr=[])] + sites(al) + [Open(name="section", i18n=b or None, sattr=[])] + sites(al) + \
+            [CLOSE] + sites(al, 1) + [CLOSE] + sites(al, 1)
+        add(items, al, "T6:%s/%s" % (sorted(a.items()), sorted(b.items())), "identity")
+    for a, b, f in [({"d": "caller"}, {"d": "lib"}, {"d": "fill", "c": "fc"}), ({"d": "caller", "c": "cc"}, {}, {}),
+                    ({}, {"d": "lib", "t": "fr"}, {"t": "de"}), ({"d": "caller"}, {"d": "lib"}, {})]:
+        al = Alloc(tier)
+        main = [Open(name="div", i18n=a or None, sattr=[]), Open(um=("m1", 1, False), name="section", sattr=[]), Text("ign"),
+                Open(fs="s", name="b", i18n=f or None, sattr=[])] + sites(al) + [CLOSE, CLOSE] + sites(al, 1) + [CLOSE]
+        lib = [Open(name="div", i18n=b or None, sattr=[]), Open(dm="m1", name="div", sattr=[])] + sites(al, 2) + \
+            [Open(name="em", i18n={"d": "slotdom"}, sattr=[]), Open(ds="s", name="u", sattr=[]), Text("default"), CLOSE, CLOSE] + sites(al, 1) + [CLOSE, CLOSE]
+        add(main + lib, al, "T6m:%s/%s/%s" % (sorted(a.items()), sorted(b.items()), sorted(f.items())), "identity", main=len(main),
             libs=[{"from": len(main) + 1, "to": len(main) + len(lib)}])
     return progs
